@@ -17,6 +17,7 @@ func Run(c *hx.Ctx) {
 		_ = syscall.Setrlimit(syscall.RLIMIT_NOFILE, &rl)
 	}
 	boundary(c)
+	dirDotted(c)
 	dirtyCases(c)
 	random(c)
 	correspondence(c)
